@@ -30,12 +30,18 @@ Oracle (all structure is read through lib.snapshot -> RefTree, i.e. raw links, n
     mapping / population tree / namespace object that served an EARLIER call under other settings (default_pop_size,
     edge_pop_size_attr / pop_size_attr, strategy, num_genes, rates, seed) must give, for the call of the case from an equal
     generator state, exactly the tree obtained on freshly built equal arguments;
+  * spellings: the birth-death stopping rule is drawn among num_extant_tips, the deprecated ntax (same predicates: exactly
+    N extant tips), num_total_tips / num_extinct_tips / max_time and combinations (documented meaning: growth stops when
+    ANY rule is met => at least 1 and at most N extant tips for the rules that bound them; all other clauses unchanged);
+    the deprecated assign_taxa flag; rates / trees / namespaces passed positionally or by keyword; a one-node Tree passed
+    as tree= (must be the object returned).  Deprecation warnings are silenced;
   * contained_coalescent_tree with gene taxa that share labels (documented contained_taxon_label_fn): tips are identified
     by the position of their taxon in the gene namespace, so determinism across rebuilt arguments is judged on Taxon
     identity, not on labels.
 """
 import math
 import random
+import warnings
 
 from hypothesis import strategies as st
 
@@ -63,8 +69,9 @@ CONFIG = {
              "tips; distinct = (simulator, full argument case incl. seed)."),
     "assumptions": [
         "only the tree simulators are covered; numeric helpers (time_to_coalescence, discrete_time_to_coalescence) are not",
-        "gsa_ntax, max_time, num_extinct_tips, num_total_tips, is_retain_extinct_tips=True, rate evolution (sd > 0) and "
-        "the tree= continuation argument are outside the property and not generated",
+        "gsa_ntax, is_retain_extinct_tips=True, rate evolution (sd > 0) and continuing a grown tree via tree= are outside the "
+        "property and not generated; num_total_tips / num_extinct_tips / max_time are generated with the weaker tip-count "
+        "clause (>= 1 extant tip, <= the bound) because extinct tips are pruned; discrete_birth_death_tree is not covered",
         "equal arguments for the second run are rebuilt from the same plain data (fresh namespace / species tree objects)",
         "root edge length is not part of 'distance from the root' and is not judged",
         "pop_size values are positive (0/None mean 'population units' in the docs and are not generated)",
@@ -114,6 +121,9 @@ def bd_flags(draw):
                          ("is_add_extinct_attr", [False, True]), ("extinct_attr_name", ["is_extinct", "dead", "taxon_is_gone"])):
         if draw(st.booleans()):
             f[name] = draw(st.sampled_from(values))
+    if "is_assign_extant_taxa" not in f and draw(st.sampled_from([False, False, True])):
+        # deprecated spelling, still accepted (shim: "Use 'is_assign_extant_taxa' and/or 'is_assign_extinct_taxa' instead")
+        f["assign_taxa"] = draw(st.sampled_from([True, True, False]))
     return f
 
 
@@ -135,8 +145,27 @@ def bd_cases(draw, max_n):
         # bias towards labels of the form T<k> with small k: these collide with the names the simulator makes up
         small = pool[:n + 6]
         ns = draw(st.lists(st.one_of(st.sampled_from(small), st.sampled_from(pool)), min_size=k, max_size=k, unique=True))
+    # How the stopping rule is spelled.  Accepted by the code under test: num_extant_tips, the deprecated ntax (shim:
+    # same meaning), num_total_tips, num_extinct_tips, max_time and combinations ("terminate when any one is met").
+    # gsa_ntax stays excluded (property statement).  Values are chosen so that the expected tree stays small:
+    # num_extinct_tips needs death/birth >= 0.3, max_time is c / birth with c <= 3 (expected size <= e^3).
+    kinds = ["num_extant_tips", "num_extant_tips", "num_extant_tips", "ntax", "ntax", "ntax", "num_total_tips",
+             "extant+total", "max_time", "extant+max_time"]
+    if death >= 0.3 * birth:
+        kinds.append("num_extinct_tips")
+    kind = draw(st.sampled_from(kinds))
+    stop = {"kind": kind}
+    if kind == "extant+total":
+        stop["m"] = n + draw(ints(0, 6))
+    if kind == "num_extinct_tips":
+        stop["k"] = draw(ints(1, 3))
+    if kind in ("max_time", "extant+max_time"):
+        stop["t"] = draw(st.sampled_from([0.25, 0.5, 1.0, 1.5, 2.0, 3.0])) / birth
     return {"seed": draw(SEED), "n": n, "birth": birth, "death": death, "ns": ns, "via_global": draw(st.booleans()),
-            "flags": draw(BD_FLAGS),
+            "flags": draw(BD_FLAGS), "stop": stop,
+            # rates passed by keyword instead of positionally; a fresh one-node Tree passed as tree= ("If given, then this
+            # tree will be used; otherwise a new one will be created")
+            "rates_kw": draw(st.booleans()), "via_tree": draw(st.sampled_from([False, False, False, True])),
             # an earlier call on the SAME namespace object (only used when the namespace is large enough not to grow)
             "prior": draw(st.one_of(st.none(), st.fixed_dictionaries({"seed": SEED, "n": ints(2, 12)})))}
 
@@ -144,12 +173,14 @@ def bd_cases(draw, max_n):
 @st.composite
 def pb_cases(draw, max_n):
     return {"seed": draw(SEED), "n": draw(tips(max_n)), "birth": draw(BIRTH), "via_global": draw(st.booleans()),
+            "kw_style": draw(st.booleans()),
             "prior": draw(st.one_of(st.none(), st.fixed_dictionaries({"seed": SEED, "value": BIRTH})))}
 
 
 @st.composite
 def kingman_cases(draw, max_n):
     return {"seed": draw(SEED), "n": draw(tips(max_n)), "pop": draw(POP), "via_global": draw(st.booleans()),
+            "kw_style": draw(st.booleans()),
             "prior": draw(st.one_of(st.none(), st.fixed_dictionaries({"seed": SEED, "value": POP})))}
 
 
@@ -205,6 +236,7 @@ def contained_cases(draw, max_species):
             # name of the edge attribute holding the sizes in "pops" / value passed as edge_pop_size_attr (None: documented
             # as "population sizes default to default_pop_size")
             "edge_attr": draw(st.sampled_from(["pop_size", "pop_size", "pop_size", "ne", None])),
+            "kw_style": draw(st.booleans()),
             # history: an earlier gene tree simulated on the SAME containing tree and mapping under other settings
             "prior": draw(st.one_of(st.none(), st.fixed_dictionaries({
                 "seed": SEED, "default_pop": st.sampled_from([0.02, 0.1, 1, 3, 50, 400]),
@@ -232,6 +264,7 @@ def constrained_cases(draw, max_species):
     return {"seed": draw(SEED), "sp": spec, "strategy": strategy, "num_genes": num_genes, "leaf_genes": leaf_genes,
             "pops": pops, "decorate": draw(st.booleans()), "via_global": draw(st.booleans()),
             "edge_attr": draw(st.sampled_from(["pop_size", "pop_size", "ne"])),
+            "kw_style": draw(st.booleans()),
             # history (used when decorate_original_tree is off): an earlier call on the SAME population tree
             "prior": draw(st.one_of(st.none(), st.fixed_dictionaries({
                 "seed": SEED, "strategy": st.sampled_from(["random_uniform", "fixed_per_population"]), "num_genes": ints(1, 6),
@@ -256,7 +289,8 @@ class Seen(object):
         self.canon = canon
 
 
-def examine(ctx, sim, tree, n_expected, one_leaf_per_taxon, expect_taxa=True, distinct_labels=True, taxon_key=None):
+def examine(ctx, sim, tree, n_expected, one_leaf_per_taxon, expect_taxa=True, distinct_labels=True, taxon_key=None,
+            n_max=None):
     """Structure / taxa / lengths / equidistance clauses.  Returns Seen.
 
     expect_taxa=False: the call asked for no taxa on the (extant) tips; distinct_labels=False: the supplied taxa share
@@ -267,8 +301,14 @@ def examine(ctx, sim, tree, n_expected, one_leaf_per_taxon, expect_taxa=True, di
     tp = traversal_problems(tree, rt)
     ctx.check(not tp, "well_formed", K("traversals", sim), lambda: "; ".join(tp[:5]))
     leaves = rt.leaves()
-    ctx.check(len(leaves) == n_expected, "tip_count", K("tip_count", sim),
-              lambda: "%d leaves, %d requested" % (len(leaves), n_expected))
+    if n_expected is not None:
+        ctx.check(len(leaves) == n_expected, "tip_count", K("tip_count", sim),
+                  lambda: "%d leaves, %d requested" % (len(leaves), n_expected))
+    else:
+        # stopping rules that do not fix the number of extant tips: at least one lineage survives (else the simulator
+        # restarts or raises), and never more extant tips than the tip-count bound that was given
+        ctx.check(len(leaves) >= 1 and (n_max is None or len(leaves) <= n_max), "tip_count", K("tip_count_bound", sim),
+                  lambda: "%d leaves, bound %r" % (len(leaves), n_max))
     bad = [i for i in rt.internals() if len(rt.children[i]) != 2]
     ctx.check(not bad, "bifurcating", K("bifurcating", sim),
               lambda: "internal node(s) with outdegree %r" % sorted(set(len(rt.children[i]) for i in bad)))
@@ -317,7 +357,9 @@ def examine(ctx, sim, tree, n_expected, one_leaf_per_taxon, expect_taxa=True, di
     # simulators stop at the very event that creates the N-th tip, so for them this needs a second split (N >= 3)
     if len(leaves) >= (3 if sim in ("birth_death_tree", "fast_birth_death_tree") else 2):
         ctx.check(hi > 0, "lengths", K("zero_height", sim), "all root-to-tip distances are 0")
-    return Seen(rt, depth, hi, rt.canon(ordered=True, lengths=True))
+    seen = Seen(rt, depth, hi, rt.canon(ordered=True, lengths=True))
+    seen.n_leaves = len(leaves)
+    return seen
 
 
 PLAIN = (bool, int, float, str, type(None))
@@ -516,10 +558,22 @@ def bd_case(ctx, case, sim):
     seed = case["seed"]
     given = {}
     flags = dict(case.get("flags") or {})
-    expect_taxa = flags.get("is_assign_extant_taxa", True) is not False
+    expect_taxa = flags.get("is_assign_extant_taxa", True) is not False and flags.get("assign_taxa", True) is not False
+    stop = case.get("stop") or {"kind": "num_extant_tips"}
+    kind = stop["kind"]
+    # keyword spelling of the stopping rule -> (kwargs, exact number of extant tips or None, upper bound or None)
+    stop_kw, n_exact, n_max = {
+        "num_extant_tips": ({"num_extant_tips": n}, n, n),
+        "ntax": ({"ntax": n}, n, n),                                   # deprecated alias of num_extant_tips
+        "num_total_tips": ({"num_total_tips": n}, None, n),             # extant + extinct == n when growth stops
+        "extant+total": ({"num_extant_tips": n, "num_total_tips": stop.get("m")}, None, n),
+        "num_extinct_tips": ({"num_extinct_tips": stop.get("k")}, None, None),
+        "max_time": ({"max_time": stop.get("t")}, None, None),
+        "extant+max_time": ({"num_extant_tips": n, "max_time": stop.get("t")}, None, n),
+    }[kind]
 
     def simulate(rng, **extra):
-        kw = dict(num_extant_tips=n)
+        kw = dict(stop_kw)
         kw.update(flags)
         kw.update(extra)
         if kw.pop("_default_flags", False):
@@ -530,14 +584,27 @@ def bd_case(ctx, case, sim):
         ns = kw.pop("_ns", None)
         n_tips = kw.pop("_n", None)
         if n_tips is not None:
+            for name in stop_kw:
+                kw.pop(name, None)
             kw["num_extant_tips"] = n_tips
         if ns is None and case["ns"] is not None:
             ns = make_namespace(case["ns"])
         if ns is not None:
             kw["taxon_namespace"] = ns
+        start = None
+        if case.get("via_tree"):
+            start = dendropy.Tree(taxon_namespace=ns) if ns is not None else dendropy.Tree()
+            kw["tree"] = start
         before = list(ns) if ns is not None else None
         st0 = namespace_state(ns)
-        tree = fn(case["birth"], case["death"], **kw)
+        with warnings.catch_warnings():
+            warnings.simplefilter("ignore")  # the deprecated spellings warn; that is their documented behaviour
+            if case.get("rates_kw"):
+                tree = fn(birth_rate=case["birth"], death_rate=case["death"], **kw)
+            else:
+                tree = fn(case["birth"], case["death"], **kw)
+        if start is not None:
+            ctx.check(tree is start, "tree_argument", K("tree_argument_not_used", sim), "the Tree passed as tree= is not the one returned")
         if ns is not None:
             # documented side effect: new taxa are appended when more are needed; the members that were there keep
             # their attributes, and so does the namespace object
@@ -549,7 +616,8 @@ def bd_case(ctx, case, sim):
         return tree
 
     def inspect(tree):
-        seen = examine(ctx, sim, tree, n, one_leaf_per_taxon=False, expect_taxa=expect_taxa)
+        seen = examine(ctx, sim, tree, n_exact, one_leaf_per_taxon=False, expect_taxa=expect_taxa, n_max=n_max)
+        n = seen.n_leaves
         ns, before = given.get(id(tree), (None, None))
         if ns is not None:
             ctx.check(tree.taxon_namespace is ns, "supplied_namespace", K("supplied_namespace_not_used", sim),
@@ -592,7 +660,7 @@ def bd_case(ctx, case, sim):
                   K("repeat_until_success_changes_result", sim),
                   lambda: "no extinction happened, yet repeat_until_success=False gives another tree; %s" % first_diff(seen1.canon, seen3.canon))
     prior = case.get("prior")
-    if prior and expect_taxa and case["ns"] is not None and len(case["ns"]) >= max(n, 2):
+    if prior and expect_taxa and case["ns"] is not None and n_max is not None and len(case["ns"]) >= max(n_max, 2):
         # the namespace is large enough not to grow: a call on a namespace object that served an earlier call must give
         # what the call on a fresh equal namespace gives
         ctx.cls("%s:reused namespace object" % sim)
@@ -617,11 +685,18 @@ def bd_case(ctx, case, sim):
                       lambda: "%r changes the tree although extinct tips are pruned; %s" % (flags, first_diff(seen1.canon, seen4.canon)))
     else:
         ctx.cls("%s:flags all default" % sim)
-    ctx.cls("%s:tips %s" % (sim, size_class(n)))
+    ctx.cls("%s:stop %s" % (sim, kind))
+    ctx.cls("%s:call style %s%s" % (sim, "rates by keyword" if case.get("rates_kw") else "rates positional",
+                                    ", tree= given" if case.get("via_tree") else ""))
+    if n_exact is None:
+        ctx.cls("%s:stop %s -> %s" % (sim, kind, "bound reached" if seen1.n_leaves == n_max else "fewer extant tips than the bound"
+                                      if n_max is not None else "%s extant tips" % size_class(seen1.n_leaves) if seen1.n_leaves > 1 else "1 extant tip"))
+    got = seen1.n_leaves
+    ctx.cls("%s:tips %s" % (sim, size_class(got) if got > 1 else "1"))
     nsl = case["ns"]
-    ctx.cls("%s:namespace %s" % (sim, "none" if nsl is None else "empty" if not nsl else "fewer" if len(nsl) < n
-                                 else "exact" if len(nsl) == n else "more"))
-    if n >= 3:
+    ctx.cls("%s:namespace %s" % (sim, "none" if nsl is None else "empty" if not nsl else "fewer" if len(nsl) < got
+                                 else "exact" if len(nsl) == got else "more"))
+    if seen1.n_leaves >= 3:
         ctx.nontrivial([sim, case])
     ctx.sample(sim, case)
 
@@ -660,7 +735,7 @@ def ns_case(ctx, case, sim):
             kw["rng"] = rng
         before = list(ns)
         st0 = namespace_state(ns)
-        tree = fn(ns, **kw)
+        tree = fn(taxon_namespace=ns, **kw) if case.get("kw_style") else fn(ns, **kw)
         check_unchanged(ctx, sim, "taxon_namespace", st0, namespace_state(ns))
         given[id(tree)] = (ns, before)
         return tree
@@ -876,7 +951,10 @@ def sc_contained_coalescent(ctx, case):
         if edge_attr != "pop_size":
             kw["edge_pop_size_attr"] = edge_attr
         st0 = (tree_state(sptree), mapping_state(mapping))
-        tree = treesim.contained_coalescent_tree(sptree, mapping, **kw)
+        if case.get("kw_style"):
+            tree = treesim.contained_coalescent_tree(containing_tree=sptree, gene_to_containing_taxon_map=mapping, **kw)
+        else:
+            tree = treesim.contained_coalescent_tree(sptree, mapping, **kw)
         # no side effect on the containing tree or the mapping is documented
         check_unchanged(ctx, sim, "containing_tree", st0[0], tree_state(sptree))
         check_unchanged(ctx, sim, "gene_to_containing_taxon_map", st0[1], mapping_state(mapping))
@@ -977,7 +1055,10 @@ def sc_constrained_kingman(ctx, case):
         if case["decorate"] and not other:
             kw["decorate_original_tree"] = True
         st0 = tree_state(sptree)
-        res = treesim.constrained_kingman_tree(sptree, **kw)
+        if case.get("kw_style"):
+            res = treesim.constrained_kingman_tree(pop_tree=sptree, **kw)
+        else:
+            res = treesim.constrained_kingman_tree(sptree, **kw)
         # documented: with decorate_original_tree the uncoalesced gene nodes are attached to the nodes of the input tree
         # as 'gene_nodes'; otherwise they go to a copy.  Nothing else about the input tree may change.
         check_unchanged(ctx, sim, "pop_tree", st0, tree_state(sptree),
